@@ -58,6 +58,11 @@ Ok(v) == [ok |-> TRUE, v |-> v]
 Err(c) == [ok |-> FALSE, err |-> c]
 
 IsNum(v) == v.k \in {"int", "float"}
+\* special numbers carry a field sp: "big" - an integer of 2^30 or more, given as hi * 2^30 + lo with its decimal text s
+\* (ordered and compared exactly, never computed with); "nan" - the float that is not a number
+Sp(v) == IF "sp" \in DOMAIN v THEN v.sp ELSE ""
+VNaN == [k |-> "float", q |-> 0, sp |-> "nan"]
+BigLess(a, b) == a.hi < b.hi \/ (a.hi = b.hi /\ a.lo < b.lo)
 Q(v) == IF v.k = "int" THEN 4 * v.v ELSE v.q          \* numeric value x 4
 
 Abs(n) == IF n < 0 THEN -n ELSE n
@@ -74,7 +79,10 @@ SetKey(o, n, v) == IF HasKey(o, n)
 \* or two objects (Go interface comparison); the definition is the structural one.
 RECURSIVE ValEq(_, _)
 ValEq(a, b) ==
-    IF IsNum(a) /\ IsNum(b) THEN Q(a) = Q(b)
+    IF IsNum(a) /\ IsNum(b)
+      THEN IF Sp(a) = "nan" \/ Sp(b) = "nan" THEN FALSE
+           ELSE IF Sp(a) = "big" \/ Sp(b) = "big" THEN (Sp(a) = "big" /\ Sp(b) = "big" /\ a.hi = b.hi /\ a.lo = b.lo)
+           ELSE Q(a) = Q(b)
     ELSE IF a.k # b.k THEN FALSE
     ELSE CASE a.k = "null" -> TRUE
            [] a.k \in {"bool", "str"} -> a.v = b.v
@@ -89,7 +97,9 @@ ValEq(a, b) ==
 Lim == 1048576
 Small(x) == x > -Lim /\ x < Lim
 Arith(op, a, b) ==      \* a, b numeric
-    IF a.k = "int" /\ b.k = "int"
+    IF Sp(a) = "nan" \/ Sp(b) = "nan" THEN (IF op = "%" /\ a.k = "int" /\ b.k = "int" THEN Err("UNREP") ELSE Ok(VNaN))
+    ELSE IF Sp(a) = "big" \/ Sp(b) = "big" THEN Err("UNREP")
+    ELSE IF a.k = "int" /\ b.k = "int"
       THEN IF ~Small(a.v) \/ ~Small(b.v) THEN Err("UNREP")
            ELSE CASE op = "+" -> Ok(VInt(a.v + b.v))
                   [] op = "-" -> Ok(VInt(a.v - b.v))
@@ -108,9 +118,15 @@ Arith(op, a, b) ==      \* a, b numeric
                   [] op = "%" -> IF y = 0 THEN Err("divzero") ELSE Ok(VFloat(TruncMod(x, y)))
 
 Compare(op, a, b) ==    \* a, b numeric
-    LET x == Q(a)
-        y == Q(b) IN
-    Ok(VBool(CASE op = "<" -> x < y [] op = "<=" -> x <= y [] op = ">" -> x > y [] op = ">=" -> x >= y))
+    IF Sp(a) = "nan" \/ Sp(b) = "nan" THEN Ok(VBool(FALSE))           \* every ordering with NaN is false
+    ELSE IF Sp(a) = "big" \/ Sp(b) = "big"
+      THEN IF a.k # "int" \/ b.k # "int" THEN Err("UNREP")
+           ELSE LET lt == IF Sp(a) = "big" /\ Sp(b) = "big" THEN BigLess(a, b) ELSE Sp(b) = "big"     \* a small integer is below a big one
+                    eq == Sp(a) = "big" /\ Sp(b) = "big" /\ a.hi = b.hi /\ a.lo = b.lo IN
+                Ok(VBool(CASE op = "<" -> lt [] op = "<=" -> lt \/ eq [] op = ">" -> ~lt /\ ~eq [] op = ">=" -> ~lt))
+    ELSE LET x == Q(a)
+             y == Q(b) IN
+         Ok(VBool(CASE op = "<" -> x < y [] op = "<=" -> x <= y [] op = ">" -> x > y [] op = ">=" -> x >= y))
 
 \* strict binary operators on two values
 BinOp(op, a, b) ==
@@ -131,7 +147,8 @@ BinOp(op, a, b) ==
 
 UnOp(op, a) ==
     CASE op = "!" -> IF a.k = "bool" THEN Ok(VBool(~a.v)) ELSE Err("type")
-      [] op = "neg" -> IF a.k = "int" THEN Ok(VInt(-a.v)) ELSE IF a.k = "float" THEN Ok(VFloat(-a.q)) ELSE Err("type")
+      [] op = "neg" -> IF Sp(a) = "nan" THEN Ok(VNaN) ELSE IF Sp(a) = "big" THEN Err("UNREP")
+                       ELSE IF a.k = "int" THEN Ok(VInt(-a.v)) ELSE IF a.k = "float" THEN Ok(VFloat(-a.q)) ELSE Err("type")
 
 (* ---- scopes ------------------------------------------------------------------------ *)
 \* scopes: sequence of functions name -> value, innermost last
@@ -475,7 +492,7 @@ EscStr(s) == IF s = "" THEN ""
 RECURSIVE SrcE(_, _), SrcList(_, _), SrcFields(_, _), SrcV(_), SrcVList(_, _), SrcVFields(_, _), SrcB(_, _, _), SrcP(_), SrcPList(_, _), SrcPFields(_, _), SrcMCases(_, _)
 SrcV(v) == CASE v.k = "null" -> "null"
              [] v.k = "bool" -> (IF v.v THEN "true" ELSE "false")
-             [] v.k = "int" -> (IF v.v < 0 THEN "-" \o ToString(-v.v) ELSE ToString(v.v))
+             [] v.k = "int" -> (IF Sp(v) = "big" THEN v.s ELSE IF v.v < 0 THEN "-" \o ToString(-v.v) ELSE ToString(v.v))
              [] v.k = "float" -> (IF v.q < 0 THEN "-" \o FloatStr(-v.q) ELSE FloatStr(v.q))
              [] v.k = "str" -> "\"" \o EscStr(v.v) \o "\""
              [] v.k = "arr" -> "[" \o SrcVList(v.e, 1) \o "]"
